@@ -394,7 +394,21 @@ pub fn run(cfg: &Cfg, sink: &Arc<Sink>) -> Report {
         cfg.threads,
         cfg.tier == Tier::Thorough,
     ));
-    report.cap(cfg.tier.pick("3 attributes only in the thorough tier; 4–6 attributes are not enumerated", "the third attribute uses single-space separators and a bare `=`; 4–6 attributes are not enumerated"));
+    // Long lists (the statement goes up to 6 attributes) over five variants, one per class: bare,
+    // quoted with a space after a newline separator, unquoted non-ASCII with a spaced `=`, a
+    // duplicate of the first name holding `>`, and a quoted end tag after a tab.
+    let pick = |name: u8, value: u8, sep: u8, eq: u8| Attr { name, value, sep, eq };
+    let small = vec![pick(0, 0, 0, 0), pick(1, 5, 2, 0), pick(3, 2, 0, 1), pick(4, 6, 0, 0), pick(2, 11, 1, 0)];
+    let long_len = cfg.tier.pick(5, 6);
+    report.phase(engine::explore(
+        "long attribute lists",
+        &format!("every list of 0..{long_len} attributes over 5 variants (bare; quoted value with a space, newline separator; unquoted non-ASCII value, spaced =; duplicate of the first name holding `>`; quoted `</block>` after a tab)"),
+        AttrSpace { cfg: cfg.clone(), full: small.clone(), reduced: small, full_depth: long_len, max_len: long_len },
+        sink,
+        cfg.threads,
+        false,
+    ));
+    report.cap(cfg.tier.pick("3 attributes over the full alphabet only in the thorough tier; lists of 4–5 attributes over 5 variants, 6 in the thorough tier", "the third attribute of the full alphabet uses single-space separators and a bare `=`; lists of 4–6 attributes over 5 variants"));
     let mut cases = Vec::new();
     for l in 0..LOOKALIKES.len() {
         for n in 0..NOISE.len() {
